@@ -21,10 +21,11 @@ from pathlib import Path
 import numpy as np
 
 import common
+import c10_extra
 from common import Ctx, Finding, Outcome
 
 PROPERTY = "C10"
-LEAN_TARGETS = ["QcelVerif.Props.C10", "QcelVerif.Props.C10Msgpack", "QcelVerif.Driver.C10"]
+LEAN_TARGETS = ["QcelVerif.Props.C10", "QcelVerif.Props.C10Msgpack", "QcelVerif.Props.C10Text", "QcelVerif.Props.C10Kwargs", "QcelVerif.Driver.C10"]
 DRIVER = "QcelVerif/Driver/C10.lean"
 THEOREMS = [
     ("QcelVerif.Ser.unhex_hex", "unhex (hex bs) = some bs for every byte string (json-ext data field)"),
@@ -44,22 +45,44 @@ THEOREMS = [
     ("QcelVerif.Ser.suffix_reader_reads_writer", "for every suffix both Molecule.to_file and a reader map, the reader reads the writer's encoding (tables extracted from source)"),
     ("QcelVerif.Ser.tables_match_source", "the model's dispatch tables equal the tables extracted from the working tree by ast"),
     ("QcelVerif.Ser.jsonext_text_not_read_by_auto", "boundary (negative): a json-ext str payload is NOT read by the automatic str->json choice"),
+    ("QcelVerif.Ser.json_text_prefix", "JSON text: parsing (text of v ++ rest) with enough fuel returns exactly (v, rest), for every JSON tree whose floats satisfy the per-value codec hypothesis floatOk and every rest that cannot continue a number token"),
+    ("QcelVerif.Ser.json_text_roundtrip", "JSON text: jsonParse (jsonPrint v) = ok v for every JSON tree (any depth/width, unbounded ints, strings over all Unicode scalar values with every escape class of ensure_ascii json.dumps, NaN/Infinity/-Infinity, finite floats under floatOk)"),
+    ("QcelVerif.Ser.json_text_roundtrip_ws", "the reader ignores any JSON whitespace before and after the document"),
+    ("QcelVerif.Ser.jsonPrint_injective", "the JSON printer is injective: two trees (floats under floatOk) with the same text are equal"),
+    ("QcelVerif.Ser.utf8Dec_utf8Enc", "UTF-8 decode (encode cs) = some cs for every character list (Lean core's codec; str payload bytes <-> JSON characters)"),
+    ("QcelVerif.Ser.ofJ_toJ", "a payload tree that has a JSON tree (str keys, valid UTF-8, no bytes/ndarray) is recovered exactly from it"),
+    ("QcelVerif.Ser.jsonext_text_roundtrip", "json-ext at TEXT level: deserialize_jsonext (serialize_jsonext v) = ok v — characters written and read back, every ndarray leaf at any depth restored with dtype, shape and bytes"),
+    ("QcelVerif.Ser.json_text_reserialise_identical", "json-ext at TEXT level: serialising what was read back gives the identical text"),
+    ("QcelVerif.Ser.json_hookless_text_roundtrip", "pydantic's plain json.loads (parse_raw(encoding='json')) reads a JSON-native payload tree back from its text"),
+    ("QcelVerif.Ser.flat_elems_ravel", "flat encodings: the element list of an array whose buffer is the concatenation of its rows' element blocks is the ravel of the rows (row-major order)"),
+    ("QcelVerif.Ser.flat_nd_emits_list", "flat encodings: an ndarray leaf is handed on as the list of its elements in buffer order"),
+    ("QcelVerif.Ser.flat_reshape_composes", "a flat list of n*m elements reshapes to n rows of m whose ravel is the list again (with flat_reshape_roundtrip: ravel and reshape are mutually inverse)"),
+    ("QcelVerif.Ser.flat_json_text_roundtrip", "plain json at TEXT level: what the flat encoder hands on is written and read back character by character"),
+    ("QcelVerif.Ser.flat_json_array_restored", "plain json: an (n,m) ndarray goes out as the text of its flat element list, comes back as that list, and reshape(n,m) gives rows whose ravel is the list"),
+    ("QcelVerif.Ser.flat_msgpack_roundtrip", "plain msgpack at BYTE level: the flat tree is written and read back byte by byte"),
+    ("QcelVerif.Ser.flat_msgpack_array_restored", "plain msgpack: an (n,m) ndarray goes out as the bytes of its flat element list, comes back as that list, and reshape(n,m) restores the rows"),
+    ("QcelVerif.Ser.codec_calls_match_source", "every json./msgpack. call of util/serialization.py has exactly the callee, arity and keyword arguments the models assume (json.dumps: cls only; msgpack: default/use_bin_type=True; loads: object_hook, raw=False), the two JSON encoder classes ravel / build the _nd_ envelope, and ProtoModel.Config sets no json_loads/json_dumps — re-read from the source by ast on every run"),
 ]
 TRUSTED_BASE = [
     "Lean 4.33 kernel; axioms per theorem audited on every run (subset of propext, Classical.choice, Quot.sound)",
     "hand-written model Model/Serialize.lean of serialization.py:23-152,193-206,247-273,319-377, tied by byte-for-byte correspondence on the generated stream",
-    "msgpack C extension (Packer shortest-form rule, Unpacker) and CPython json/repr(float) are parameters: modelled and checked on everything generated, not verified",
+    "hand-written model Model/JsonText.lean of CPython's json.dumps (default separators, ensure_ascii, allow_nan) / json.loads (strict) and of the flat encoders' ravel().tolist(): tied by byte-for-byte comparison of the TEXT the model prints with serialize(..., 'json'|'json-ext') and of the tree the model's parser reads from the implementation's text, on every generated payload",
+    "float printing/parsing (float.__repr__, float()) is a PARAMETER of the text theorems (FloatCodec); they need only floatOk(codec, x) for the floats x that occur, which the driver evaluates for every float it prints with the concrete shortest-repr / correctly-rounded-parse codec of Model/JsonFloat.lean (nothing is proved about that codec; a wrong digit shows as a text mismatch)",
+    "UTF-8 is Lean core's String codec (round trip proved in core, used as a theorem)",
+    "msgpack C extension (Packer shortest-form rule, Unpacker) and the CPython json module itself are third-party: modelled and checked on everything generated, not verified",
     "numpy ascontiguousarray/tobytes/frombuffer/reshape semantics folded into the model as byte lists and shape products",
     "pydantic validation of model instances is outside the Lean model: instance equality is differential only (Python oracle)",
-    "harness/c10.py generators, the ast table extractor and the Python oracle",
+    "harness/c10.py + harness/c10_extra.py generators, the ast table / keyword-argument extractor and the Python oracle",
 ]
 ASSUMPTIONS = [
     "payload dict keys are str (int keys are rejected by msgpack strict_map_key and stringified by json) and no user dict contains the key '_nd_' (the object hooks treat any such dict as an array envelope)",
-    "integers within msgpack range [-2^63, 2^64); NaN only inside ndarray bytes (NaN != NaN makes value equality undefined for bare floats)",
+    "integers within msgpack range [-2^63, 2^64); bare non-finite Python floats (+inf, -inf, NaN) ARE generated, at any depth of raw payloads and in every model field whose validation admits them (keywords/extras dicts, AtomicResult.return_result and properties, wavefunction matrices, OptimizationResult.energies, AlignmentMill.shift/rotation, BasisSet exponents/coefficients), under all four encodings: +-inf must come back == and of type float; NaN must come back as a float NaN (isnan on both sides; bit patterns of NaN are compared only inside ndarray bytes under the -ext encodings) and the second serialisation must be the identical payload; non-finite Molecule geometry is not generated (masses, charges and bond orders are rejected by validation)",
     "raw ndarrays nested in containers are demanded only for the two -ext encodings (the flat encodings ravel by design); rank-0 arrays decay to scalars and are checked for value only",
     "decoded arrays are read-only views (np.frombuffer); writeability is not part of the property",
     "auto-encoding/suffix clauses are demanded for the writer the property names (str<->json, bytes<->msgpack-ext, suffix writer<->suffix reader); json-ext text through the str->json default is modelled and checked as a rejecting cell, not demanded",
     "pickle and the non-serialisation Molecule formats (xyz, psi4, numpy) are outside this property",
+    "JSON text model: str ranges over Unicode scalar values — lone surrogates (which a Python str can hold and json writes as \\udXXX) are outside it (the model's parser reports LoneSurrogate); a text with duplicate object keys is kept as pairs by the model while Python keeps the last (the writers never produce one); bytes leaves have no JSON form and are not sent through the text tie",
+    "the text tie runs on payloads whose strings / arrays have at most 20000 characters / elements (the interpreted driver recurses per character) and whose bare NaNs are the canonical float('nan') (the token NaN carries no payload bits; a non-canonical bare NaN is reported by the model as float-hyp); the flat encodings' element decoding is modelled for float64, (u)int8..64 and bool arrays in either byte order and for empty arrays of any dtype — f2/f4/complex/U/S arrays under plain json/msgpack are outside the flat model (the property demands raw arrays only for the -ext encodings)",
     "Molecule instances are the validated ones (validated=True: any validating construction, geometry_noise/orient options, scramble/align/from_data results); a molecule built with validate=False and never validated is re-validated, hence normalised, by the parser by design and is not generated",
 ]
 RULE = (
@@ -72,7 +95,21 @@ RULE = (
     "with distinct molecules in initial/final/trajectory slots) whose molecules keep MORE digits than the default construction-time clean-up leaves "
     "(geometry beyond 8 decimals: constructor option geometry_noise in 9..16 with and without orient=True, Molecule.scramble() with drawn "
     "shift/rotation/permutation/mirror, Molecule.align() onto such a reference; coordinates of magnitude 1e-13..4e-7, molecular charges with 5-12 decimals, "
-    "explicit full-precision masses), compared exactly field by field and payload by payload; files by suffix; the full auto/suffix/reader tables. A case is distinct by (block, dtype, shape, layout, depth, "
+    "explicit full-precision masses), compared exactly field by field and payload by payload; files by suffix; the full auto/suffix/reader tables. "
+    "TEXT tie on every payload without bytes leaves: the model prints the json-ext TEXT, the plain-json TEXT and the plain-msgpack BYTES (each compared "
+    "byte-for-byte with serialize()), and the model's JSON parser reads the implementation's json-ext text, the same document re-laid out by "
+    "json.dumps(indent=1, ensure_ascii=False) (whitespace, raw non-ASCII) and the plain json text (compared with deserialize()/json.loads as trees); strings "
+    "there carry quotes, backslashes, newlines, non-ASCII BMP characters, keys of 1-32 characters, empty strings/containers, floats from the whole "
+    "finite double range incl. subnormals and the largest double, ±inf. "
+    "Oracle-only streams (harness/c10_extra.py, never sent to the Lean driver): (sizes) str / utf-8 bytes / bin (array data) / list / map / list-of-lists of "
+    "n in {15,16,17,31,32,33,255,256,257,65535,65536,65537} elements or bytes, raw and inside AtomicInput.keywords, AtomicResult.stdout/extras/wavefunction eigenvalues, "
+    "AlignmentMill.atommap and an n-atom Molecule, x 4 encodings; single items just above 2^20 and 2^24 bytes (str, utf-8 str, bin = array data, float64 array data, a map of 2^20+1 keys), raw and "
+    "inside AtomicResult.stdout/extras/eigenvalues/return_result; one float64 array of 134.48e6 bytes (> 2^27 > 100 MiB) from a drawn PCG64 seed through 'msgpack' and "
+    "'msgpack-ext', raw (nested at depth 3) and inside AtomicResult.return_result (gradient, shape restored by the validator) and AtomicResult.extras, with parse_raw's explicit and "
+    "automatic choice; thorough tier also one raw msgpack-ext payload above 2^31 bytes when 24 GiB are available; (non-finite) bare +inf/-inf/NaN floats at depth 0-3 of raw "
+    "payloads, as dict values and beside arrays, float/complex arrays of every float dtype x layout with non-finite elements, x 4 encodings (flat encodings: the ravelled list, value "
+    "for value); instances of all seven models with non-finite values injected into the fields whose validation admits them x 4 encodings + automatic choice + "
+    "parse_file(.json/.js/.msgpack) + Molecule.to_file/from_file. A case is distinct by (block, dtype, shape, layout, depth, "
     "encoding) or (model, encoding, options, field-shape signature) and non-trivial when it carries an array that is not a C-contiguous little-endian "
     "float64 vector, a boundary-width scalar, an error branch, or a model instance with at least one multi-dimensional array field."
 )
@@ -80,11 +117,18 @@ LEVEL_TEXT = (
     "proof, partial. Proved for all inputs: hex round trip, every fixed-width msgpack field, both ndarray envelopes (any dtype/shape/bytes, "
     "zero extents included), the json-ext round trip over whole payload trees with arrays at any depth, the FULL msgpack byte-stream round trip "
     "mpDecode (mpEnc v) = ok v over whole trees and identical re-serialisation (msgpack_roundtrip, reserialise_identical), flat reshape round trip "
-    "and refusal, and the dispatch tables (re-extracted from the source on every run). Partial because the JSON text layer, the msgpack C "
-    "extension itself and instance equality through pydantic are third-party: they are tied to the model byte-for-byte / by exact comparison on "
-    "everything generated, not proved."
+    "and refusal, and the dispatch tables (re-extracted from the source on every run). The JSON TEXT layer is now modelled and proved: "
+    "jsonParse (jsonPrint v) = ok v at character level for every tree (strings over all Unicode scalar values with every escape class, unbounded ints, "
+    "NaN/±Infinity, any depth), printer injectivity, whitespace tolerance around a document, and the composed text/byte-level statements "
+    "jsonext_text_roundtrip, json_text_reserialise_identical, the plain-json and plain-msgpack round trips with arrays emitted as row-major flat "
+    "lists and ravel/reshape mutually inverse; the keyword arguments of the json./msgpack. calls are re-read from the source and proved equal to what "
+    "the models assume. Still partial: (1) float.__repr__/float() are a parameter of the text theorems — the hypothesis floatOk is evaluated per float "
+    "by the driver with a concrete codec that is itself only checked differentially (byte-for-byte against json.dumps on every generated float); "
+    "(2) CPython's json module and the msgpack C extension are tied to the models byte-for-byte on everything generated, not verified; lone "
+    "surrogates in str and the flat element decoding of f2/f4/complex/U/S arrays are outside the text model; (3) instance equality through pydantic "
+    "validation is differential only (Python oracle, incl. payloads above 100 MiB and non-finite floats in every field that admits them)."
 )
-TECHNIQUE = "Lean 4 structural-induction proofs of codec round trips + decide over source-extracted tables + byte-for-byte differential correspondence"
+TECHNIQUE = "Lean 4 structural-induction proofs of codec round trips (msgpack bytes, JSON text) + decide over source-extracted tables and keyword arguments + byte-for-byte differential correspondence"
 
 ENCODINGS = ["json", "json-ext", "msgpack", "msgpack-ext"]
 EXT = ["json-ext", "msgpack-ext"]
@@ -195,6 +239,46 @@ def extract_tables():
                 for e in enc_names(n.test):
                     smap[e] = rets[0].value.func.id
     t["serialize_writer"] = smap
+    # the third-party calls themselves: callee, number of positional arguments, keyword arguments (name, source text).
+    # The model's text printer ASSUMES json.dumps is called with no separators / indent / ensure_ascii / allow_nan / sort_keys
+    # keyword (CPython defaults) and msgpack with use_bin_type=True / raw=False and the two object hooks.
+    calls = []
+    for fn, attr in (("json_dumps", "dumps"), ("jsonext_dumps", "dumps"), ("msgpack_dumps", "dumps"), ("msgpackext_dumps", "dumps"),
+                     ("json_loads", "loads"), ("jsonext_loads", "loads"), ("msgpack_loads", "loads"), ("msgpackext_loads", "loads")):
+        f = find_func(ser, fn)
+        found = [n for n in ast.walk(f) if isinstance(n, ast.Call) and isinstance(n.func, ast.Attribute) and isinstance(n.func.value, ast.Name)
+                 and n.func.value.id in ("json", "msgpack")]
+        if len(found) != 1:
+            raise ValueError(f"{fn}: expected exactly one json./msgpack. call, found {len(found)}")
+        c = found[0]
+        if any(kw.arg is None for kw in c.keywords):
+            raise ValueError(f"{fn}: **kwargs in the codec call")
+        calls.append((fn, f"{c.func.value.id}.{c.func.attr}", len(c.args), sorted((kw.arg, ast.unparse(kw.value)) for kw in c.keywords)))
+    t["codec_calls"] = calls
+    # the two JSON encoder classes: base class and what `default` does with an ndarray of rank >= 1 ("ravel" flat list / "_nd_" envelope)
+    encs = []
+    for cname in ("JSONArrayEncoder", "JSONExtArrayEncoder"):
+        cl = [n for n in ser.body if isinstance(n, ast.ClassDef) and n.name == cname]
+        if len(cl) != 1:
+            raise ValueError(f"class {cname} not found")
+        src = ast.unparse(cl[0])
+        encs.append((cname, ",".join(ast.unparse(b) for b in cl[0].bases), "ravel" if ".ravel().tolist()" in src else ("_nd_" if "'_nd_'" in src else "?")))
+    t["json_encoders"] = encs
+    # ProtoModel.Config: the names it sets. Reader.pydJson (parse_raw(encoding="json")) is pydantic's OWN json.loads only as
+    # long as Config overrides neither json_loads nor json_dumps
+    pm = [n for n in base.body if isinstance(n, ast.ClassDef) and n.name == "ProtoModel"]
+    cfg = [n for n in (pm[0].body if pm else []) if isinstance(n, ast.ClassDef) and n.name == "Config"]
+    if len(cfg) != 1:
+        raise ValueError("ProtoModel.Config not found")
+    names = []
+    for n in cfg[0].body:
+        if isinstance(n, ast.AnnAssign) and isinstance(n.target, ast.Name):
+            names.append(n.target.id)
+        elif isinstance(n, ast.Assign):
+            names += [x.id for x in n.targets if isinstance(x, ast.Name)]
+        elif isinstance(n, (ast.FunctionDef, ast.ClassDef)):
+            names.append(n.name)
+    t["proto_config"] = sorted(names)
     return t
 
 
@@ -247,6 +331,17 @@ def gen_tables(ctx):
     L.append("def molFileTable : List (Enc × Reader) := [" + ", ".join(rows_mol) + "]")
     L.append("/-- (writer enc of Molecule.to_file(suffix), reader of ProtoModel.parse_file(suffix)) for suffixes both know -/")
     L.append("def parseFileTable : List (Enc × Reader) := [" + ", ".join(rows_pf) + "]")
+
+    def lstr(x):
+        return json.dumps(x)  # a Lean string literal for ASCII source text
+
+    L.append("/-- the third-party codec calls in util/serialization.py: (function, callee, positional args, keyword args as source text) -/")
+    L.append("def codecCalls : List (String × String × Nat × List (String × String)) := [" + ", ".join(
+        f"({lstr(fn)}, {lstr(callee)}, {na}, [" + ", ".join(f"({lstr(k)}, {lstr(v)})" for k, v in kws) + "])" for fn, callee, na, kws in t["codec_calls"]) + "]")
+    L.append("/-- the JSON encoder classes: (name, base classes, what `default` does with an ndarray of rank >= 1) -/")
+    L.append("def jsonEncoders : List (String × String × String) := [" + ", ".join(f"({lstr(a)}, {lstr(b)}, {lstr(c)})" for a, b, c in t["json_encoders"]) + "]")
+    L.append("/-- names set in ProtoModel.Config (basemodels.py), sorted -/")
+    L.append("def protoConfigKeys : List String := [" + ", ".join(lstr(x) for x in t["proto_config"]) + "]")
     L += ["", "end QcelVerif.Ser.Gen", ""]
     out = common.LEAN / "QcelVerif" / "Gen" / "SerTables.lean"
     out.parent.mkdir(exist_ok=True)
@@ -785,6 +880,18 @@ def check_payloads(ctx, out: Outcome, cases):
         if "ser_exc" not in rec:
             t = tree(p)
             lines += ["mp " + t, "jx " + t, "mpd " + rec["mp"].hex(), "jxd " + tree(json.loads(rec["jx"]))]
+            # ---- text layer (Model/JsonText.lean): the model PRINTS the json-ext text and PARSES the implementation's text
+            rec["text_ok"] = text_tie_ok(p)
+            if rec["text_ok"]:
+                rec["flat"] = flat_expectation(p)
+                rec["n_text_lines"] = 0
+                lines += ["jt json-ext " + t, "jtd hook " + hx(rec["jx"].encode("utf-8"))]
+                # whitespace tolerance and raw (unescaped) non-ASCII: the same document re-laid out by json.dumps(indent=1, ensure_ascii=False)
+                rec["relaid"] = json.dumps(json.loads(rec["jx"]), indent=1, ensure_ascii=False)
+                lines += ["jtd hook " + hx(rec["relaid"].encode("utf-8"))]
+                lines += ["jt json " + t, "mpf " + t]
+                if rec["flat"]["json"] is not None:
+                    lines += ["jtd plain " + hx(rec["flat"]["json"].encode("utf-8"))]
     model = ctx.run_model(DRIVER, lines) if ctx.model_available else None
     mi = 0
     for rec in impl:
@@ -830,8 +937,160 @@ def check_payloads(ctx, out: Outcome, cases):
                     i_dec = exc_kind(e)
                 if m_dec != i_dec:
                     out.mismatches.append(Finding(kind, {**case, "encoding": enc}, observed=i_dec[:400], expected=m_dec[:400], detail="decoded tree differs (implementation vs model)"))
+            if rec.get("text_ok"):
+                m_jt, m_jtd, m_jtd2, m_jtf, m_mpf = model[mi : mi + 5]
+                mi += 5
+                out.count("text-tie:json-ext")
+                if m_jt != "T " + rec["jx"]:
+                    out.mismatches.append(Finding("mismatch:json-ext-text", case, observed=rec["jx"][:400], expected=m_jt[:400], detail="json-ext TEXT differs byte-for-byte (implementation's serialize vs the model's printer)"))
+                try:
+                    i_dec = tree(deserialize(rec["jx"], "json-ext"))
+                except Exception as e:  # noqa
+                    i_dec = exc_kind(e)
+                if m_jtd != i_dec:
+                    out.mismatches.append(Finding("mismatch:json-ext-text-parse", case, observed=i_dec[:400], expected=m_jtd[:400], detail="the model's JSON parser + hook reads the implementation's json-ext text differently from deserialize()"))
+                if m_jtd2 != i_dec:
+                    out.mismatches.append(Finding("mismatch:json-text-whitespace", case, observed=i_dec[:400], expected=m_jtd2[:400], detail="the model's JSON parser reads the re-laid-out document (indent=1, ensure_ascii=False) differently"))
+                fl = rec["flat"]
+                if fl["supported"]:
+                    out.count("text-tie:json-flat")
+                    want_t = ("T " + fl["json"]) if fl["json"] is not None else "exc " + str(fl["json_exc"])
+                    if fl["noncanon_nan"] and fl["json"] is not None:
+                        out.count("text-tie:flat-noncanonical-nan-element")
+                        want_t = "err float-hyp"
+                    if m_jtf != want_t:
+                        out.mismatches.append(Finding("mismatch:json-flat-text", case, observed=want_t[:400], expected=m_jtf[:400], detail="plain json TEXT differs byte-for-byte (arrays as row-major flat lists)"))
+                    want_b = hx(fl["msgpack"]) if fl["msgpack"] is not None else "exc " + str(fl["msgpack_exc"])
+                    if m_mpf != want_b:
+                        out.mismatches.append(Finding("mismatch:msgpack-flat-bytes", case, observed=want_b[:400], expected=m_mpf[:400], detail="plain msgpack BYTES differ (arrays as row-major flat lists)"))
+                else:
+                    out.count("text-tie:flat-dtype-not-modelled")
+                    if m_jtf != "err unsupported-dtype" or m_mpf != "err unsupported-dtype":
+                        out.mismatches.append(Finding("mismatch:flat-dtype-scope", case, observed="unsupported", expected=(m_jtf[:80], m_mpf[:80]), detail="the model claims a flat encoding for a dtype the harness regards as outside the flat model"))
+                if fl["json"] is not None:
+                    m_plain = model[mi]
+                    mi += 1
+                    try:
+                        i_plain = tree(json.loads(fl["json"]))
+                    except Exception as e:  # noqa
+                        i_plain = "exc " + type(e).__name__
+                    if m_plain != i_plain:
+                        out.mismatches.append(Finding("mismatch:json-flat-text-parse", case, observed=i_plain[:400], expected=m_plain[:400], detail="the model's JSON parser (no hook) reads the implementation's plain json text differently from json.loads"))
         if len(out.samples) < 3 and rec["block"] == "arr":
             out.sample({"key": rec["key"], "msgpack-ext": hx(rec["mp"])[:96], "json-ext": rec["jx"][:96]})
+
+
+TEXT_CHARS = ['"', "\\", "/", "\b", "\f", "\n", "\r", "\t", "\x00", "\x01", "\x1f", " ", "~", "\x7f", "\x80", "é", "\u07ff", "\u0800", "✓", "\ud7ff",
+              "\ue000", "\uffff", "\U00010000", "😀", "\U0010ffff", "a", "0", "-", "e", ".", ":", ",", "[", "]", "{", "}", "u", "\\u0041"]
+TEXT_FLOATS = [1e16, 1e15, 9999999999999998.0, 1e-5, 1e-4, 0.0001, 0.00001234, 123456789012345680.0, 5e-324, 2.2250738585072014e-308, 2.225073858507201e-308,
+               1.7976931348623157e308, 0.1 + 0.2, 1 / 3, 2 / 3, 1e22, 1e23, 9007199254740993.0, 4.35, 0.3, 1e21, 1.5e-7, 100.0, 1e100, -1e-100, -0.0, 0.0,
+               float("inf"), float("-inf"), 2.0**-1074 * 3, 2.0**1023, 5e-310, 123.456, 1.0000000000000002, 0.9999999999999999]
+
+
+def text_cases(ctx):
+    """payloads aimed at the JSON text layer: every escape class in values AND keys, astral characters, empty strings and
+    containers, deep nesting, the float printing boundaries. Ints stay inside the msgpack range (the same payloads also go
+    through msgpack-ext)."""
+    rng = ctx.rng
+    out = []
+    for i, ch in enumerate(TEXT_CHARS):
+        out.append(("text", f"char|{ch.encode('unicode_escape').decode()}", {ch: [ch, ch + ch, "x" + ch + "y"], "k" + ch: {ch + "k": ch}}))
+    out.append(("text", "empties", {"": "", "a": [], "b": {}, "c": [[], {}, ""], "d": {"": {"": []}}, "t": ()}))
+    out.append(("text", "floats", {"f": list(TEXT_FLOATS), "neg": [-x for x in TEXT_FLOATS if x == x]}))
+    for depth in (8, 16, 40):
+        v = [1.5, "é😀"]
+        for d in range(depth):
+            v = {"k\n" + str(d): v} if d % 2 else [v, d]
+        out.append(("text", f"deep{depth}", v))
+
+    def rstr():
+        return "".join(rng.choice(TEXT_CHARS) for _ in range(rng.choice([0, 1, 2, 3, 8, 33])))
+
+    def rval(d):
+        r = rng.random()
+        if d <= 0 or r < 0.45:
+            k = rng.random()
+            if k < 0.35:
+                return rstr()
+            if k < 0.6:
+                return rng.choice(TEXT_FLOATS) if rng.random() < 0.5 else struct.unpack(">d", struct.pack(">Q", rng.getrandbits(64) & ~(0x7FF << 52) | (rng.randint(0, 2046) << 52)))[0]
+            if k < 0.8:
+                return rng.choice(BOUNDARY_INTS)
+            return rng.choice([None, True, False])
+        if r < 0.7:
+            return [rval(d - 1) for _ in range(rng.randint(0, 4))]
+        if r < 0.8:
+            a, _lay = rand_array(rng, rng.choice(["<f8", ">f8", "<i2", ">i4", "|u1", "<u8", "|b1", "<i8"]), rng.choice([1, 2]), None)
+            return a
+        used, dct = set(), {}
+        for _ in range(rng.randint(0, 4)):
+            k = rstr()
+            if k in used or k == "_nd_":
+                continue
+            used.add(k)
+            dct[k] = rval(d - 1)
+        return dct
+
+    for j in range(ctx.scale(150, 2000)):
+        out.append(("text", f"rand|{j}", {"r": rval(rng.choice([1, 2, 3, 5]))}))
+    return out
+
+
+def _walk_leaves(p):
+    if isinstance(p, dict):
+        for k, v in p.items():
+            yield k
+            yield from _walk_leaves(v)
+    elif isinstance(p, (list, tuple)):
+        for v in p:
+            yield from _walk_leaves(v)
+    else:
+        yield p
+
+
+TEXT_MAX_STR = 20000  # the interpreted driver recurses once per character of a string
+
+
+def text_tie_ok(p):
+    """payloads the text-layer tie is run on: no bytes leaves (JSON has none), every bare NaN is the canonical one (the token
+    NaN carries no payload bits: the model reports `float-hyp` otherwise), strings short enough for the interpreted driver"""
+    for x in _walk_leaves(p):
+        if isinstance(x, bytes):
+            return False
+        if isinstance(x, str) and len(x) > TEXT_MAX_STR:
+            return False
+        if isinstance(x, float) and x != x and struct.pack(">d", x) != b"\x7f\xf8\0\0\0\0\0\0":
+            return False
+        if isinstance(x, np.ndarray) and x.size > TEXT_MAX_STR:
+            return False
+    return True
+
+
+def flat_expectation(p):
+    """what the implementation writes with the two flat encodings; `supported`: every ndarray leaf has an element kind the
+    flat model decodes (float64, (u)int8..64, bool; either byte order) or is empty (an empty array of any dtype is `[]`)"""
+    from qcelemental.util import serialize
+
+    sup = all(x.size == 0 or (x.dtype.kind in "iub") or (x.dtype.kind == "f" and x.dtype.itemsize == 8) for x in _walk_leaves(p) if isinstance(x, np.ndarray) and x.ndim > 0)
+    # a NaN array element with payload bits is written as the token NaN like any other NaN; the model prints the same text but its
+    # per-float hypothesis (floatOk: the round trip of that float is bit-exact) fails, and it says so instead of printing
+    noncanon = False
+    for x in _walk_leaves(p):
+        if isinstance(x, np.ndarray) and x.ndim > 0 and x.dtype.kind == "f" and x.dtype.itemsize == 8 and x.size:
+            bits = np.ascontiguousarray(x).astype(x.dtype.newbyteorder("<")).view("<u8")
+            nan = np.isnan(np.ascontiguousarray(x))
+            if bool((nan & (bits != 0x7FF8000000000000)).any()):
+                noncanon = True
+    r = {"supported": sup, "json": None, "msgpack": None, "json_exc": None, "msgpack_exc": None, "noncanon_nan": noncanon}
+    try:
+        r["json"] = serialize(p, "json")
+    except Exception as e:  # noqa
+        r["json_exc"] = type(e).__name__
+    try:
+        r["msgpack"] = serialize(p, "msgpack")
+    except Exception as e:  # noqa
+        r["msgpack_exc"] = type(e).__name__
+    return r
 
 
 # ----------------------------------------------------------------------------------------------------------------
@@ -1590,6 +1849,10 @@ def run(ctx: Ctx) -> Outcome:
         check_envelopes(ctx, out, envelope_cases(ctx))
         instances_block(ctx, out)
         tables_block(ctx, out)
+        check_payloads(ctx, out, text_cases(ctx))  # drawn after the older blocks: their streams are unchanged for a given seed
+        # oracle-only streams of harness/c10_extra.py; they draw from ctx.rng AFTER the blocks above (existing streams unchanged)
+        c10_extra.sizes_block(ctx, out)
+        c10_extra.nonfinite_block(ctx, out)
     out.exhaustive = False
     dist = out.distribution
     out.notes.append(
@@ -1599,7 +1862,7 @@ def run(ctx: Ctx) -> Outcome:
         "to an already validated payload shows up as a field difference and a different second payload (all default-constructed molecules are fixed points of that clean-up)"
     )
     out.notes.append("dtype x layout grid is systematic; shapes, bytes, nesting and model instances are sampled from VERIF_SEED; dispatch tables are exhaustive")
-    out.notes.append("container widths compared differentially up to 5000 entries (array16/map16 heads); the 32-bit container head at 65536 entries is covered by the theorems only; str/bin/array data are compared up to 65536 bytes")
+    out.notes.append("container widths compared differentially up to 5000 entries (array16/map16 heads); the 32-bit container head at 65536 entries is covered by the theorems for the model and by the oracle-only size-boundary stream (harness/c10_extra.py) for the implementation; str/bin/array data are compared with the model up to 65536 bytes")
     out.notes.append("json-ext text through parse_raw's str->json default (and parse_file('.json')) is rejected by the implementation exactly as the model's table says; not demanded by the oracle (see ASSUMPTIONS)")
     return out
 
@@ -1611,7 +1874,7 @@ def replay(ctx: Ctx, case) -> Outcome:
     block = case.get("block") if isinstance(case, dict) else None
     with warnings.catch_warnings(), contextlib.redirect_stdout(io.StringIO()):
         warnings.simplefilter("ignore")
-        if block in ("arr", "arr-empty", "arr-bcast", "arr-rank0", "scalars", "scalars-wide"):
+        if block in ("arr", "arr-empty", "arr-bcast", "arr-rank0", "scalars", "scalars-wide", "text"):
             check_payloads(ctx, out, [(block, case.get("key", "replay"), undescribe(case["payload"]))])
         elif block == "envelope":
             import msgpack
@@ -1627,6 +1890,8 @@ def replay(ctx: Ctx, case) -> Outcome:
             name, obj = rand_instance(sub, which, trace)
             d = tempfile.mkdtemp(prefix="c10-", dir=str(ctx.work))
             check_instance(ctx, out, name, obj, case["seed"], files_dir=d, family=("hp-geometry|" + ",".join(trace)) if trace else None)
+        elif c10_extra.replay_extra(ctx, out, case):
+            pass
         else:
             tables_block(ctx, out)
     return out
